@@ -147,6 +147,19 @@ def cases(rng, tier):
                 data = [max(lo, min(hi, v)) for v in data]
             else:
                 data = [rng.randint(bot, top) for _ in range(n)]
+        if dtype != 'bool' and rng.random() < 0.3:
+            # sparse: a dark image with a few bright pixels (isolated selected pixels, also in the interior of 3-D images:
+            # they are the ones whose convolution value is the bare centre weight)
+            shape = [rng.randint(3, 6) for _ in range(nd)] if nd == 2 else [rng.randint(3, 4) for _ in range(nd)]
+            n = int(np.prod(shape))
+            hi_v = rng.choice([100, 120, 200]) if dtype != 'int8' else 100
+            data = [0] * n
+            interior = [rng.randint(1, d - 2) for d in shape]       # not touching the reflecting border
+            data[int(np.ravel_multi_index(interior, shape))] = hi_v
+            for _ in range(rng.randint(0, 2)):
+                data[rng.randrange(n)] = hi_v
+            if dtype in FLOAT_DTYPES:
+                data = [float(v) for v in data]
         c = dict(kind='tas', fn=fn, shape=shape, dtype=dtype, data=data, specmask=rng.randrange(3))
         if fn == 'pftas':
             if dtype in ('uint8', 'uint16', 'uint32') and rng.random() < 0.5:
